@@ -439,9 +439,14 @@ def scenario_indexer(run, seed, k, mods):
         ix = indexing.indexer(unitcell=None, gv=gv.copy(), hkl_tol=tol, wavelength=0.3)
     # ---- an empty list of grains: everything unassigned
     ix.ubis = []
-    ix.fight_over_peaks()
+    try:
+        ix.fight_over_peaks()
+        empty_ok = (np.asarray(ix.ga) == -1).all() and len(ix.gas) == 0 and len(ix.ga) == n
+    except Exception as e:
+        empty_ok = False
+        V("fight_over_peaks:empty-list", "an empty grain list raised %s: %s" % (type(e).__name__, e))
     run.count("fight_over_peaks_empty_list")
-    if not ((np.asarray(ix.ga) == -1).all() and len(ix.gas) == 0 and len(ix.ga) == n):
+    if not empty_ok:
         V("fight_over_peaks:empty-list", "an empty grain list does not leave every peak unassigned")
     # ---- getind: peaks indexed by one matrix (defaults, and caller-supplied scratch arrays as scorethem does)
     for g in range(min(ng, 3)):
